@@ -2,9 +2,9 @@ package main
 
 import (
 	"fmt"
-	"strings"
 	"go/token"
 	"go/types"
+	"strings"
 
 	"golang.org/x/tools/go/ssa"
 )
@@ -1021,7 +1021,6 @@ func (p *Prog) helperAcceptsSoundly(h *ssa.Function) (bool, string) {
 	return true, ""
 }
 
-
 // C04.lexical — the validator decides on the lexically cleaned target while
 // the operating system resolves the raw one.
 func ruleC04Lexical(c *Checker) {
@@ -1148,7 +1147,6 @@ func ruleC04Lexical(c *Checker) {
 	}
 	c.check(physical || dotdotTest, R, p.FuncName(g), "dot-dot after a named component", p.Pos(g.Pos()), "targets the lexical decision is wrong for are refused, or the physical resolution is checked", "the validator accepts a relative target on its lexically cleaned form only: with entries a/b/c/l -> ../../.. and m -> a/b/c/l/.. both pass (lexically dst and dst/a/b/c), Unpack returns nil, and following m leads to the parent of dst — there is neither a test refusing '..' after a named component nor a physical resolution")
 }
-
 
 // C04.relative / C05.relative — a relative target is judged from the root,
 // without the root's own name.
@@ -1561,7 +1559,9 @@ func ruleNestedWalk(id string) func(*Checker) {
 			if fn.Package() == nil || fn.Package().Pkg.Path() != p.PkgPath("slug") {
 				continue
 			}
-			for _, ci := range callsTo(fn, func(o *types.Func) bool { return isFunc(o, "path/filepath", "Walk") || isFunc(o, "path/filepath", "WalkDir") }) {
+			for _, ci := range callsTo(fn, func(o *types.Func) bool {
+				return isFunc(o, "path/filepath", "Walk") || isFunc(o, "path/filepath", "WalkDir")
+			}) {
 				wc, ok := ci.(*ssa.Call)
 				if !ok || len(wc.Call.Args) < 2 {
 					continue
